@@ -408,6 +408,25 @@ class SymDict:
         return PW.of(Rat.atom(f"{self.name}[{key}]"))
 
 
+class SymArr:
+    """Symbolic integer table T with T[b] an atom and T[b+1] = T[b] + step[b] (a cumulative
+    table), or a plain per-branch table when step is None."""
+
+    def __init__(self, name, step=None, var="b"):
+        self.name, self.step, self.var = name, step, var
+
+    def index(self, i: "Rat") -> "Rat":
+        b = Rat.atom(self.var)
+        off = i - b
+        if off.is_zero():
+            return Rat.atom(f"{self.name}[{self.var}]")
+        if self.step is not None and off.eq(ONE):
+            return Rat.atom(f"{self.name}[{self.var}]") + Rat.atom(f"{self.step}[{self.var}]")
+        if i.is_const() and i.const_value() == 0 and self.step is not None:
+            return ZERO
+        raise Und(f"index {i} into symbolic table {self.name}")
+
+
 class ObjV:
     def __init__(self, cls, attrs=None):
         self.cls = cls
@@ -454,6 +473,7 @@ class Evaluator:
         self.opaque_calls: Dict[str, object] = {}  # function name -> callable(args)->value
         self.trace_div = False
         self.call_stack: List[str] = []
+        self.sub_hooks = []
 
     # -- guards ------------------------------------------------------------------------
     def guard_id(self, kind: str, lhs: Rat, bound: Rat) -> int:
@@ -544,6 +564,10 @@ class Evaluator:
         return StrV(out)
 
     def ev_Subscript(self, e, env, ctx):
+        for h in self.sub_hooks:
+            r = h(self, e, env, ctx)
+            if r is not None:
+                return r
         base = self.ev(e.value, env, ctx) if not isinstance(e.value, ast.Name) or e.value.id in env else None
         if base is None:
             # free dictionary-like name: opaque atom keyed by normalised key
@@ -552,6 +576,8 @@ class Evaluator:
             except Und:
                 k = ast.unparse(e.slice)
             return PW.of(Rat.atom(f"{e.value.id}[{k}]"))
+        if isinstance(base, SymArr):
+            return PW.of(base.index(rat_of(self.ev(e.slice, env, ctx))))
         if isinstance(base, SymDict):
             return base.get(self.key_of(e.slice, env, ctx))
         if isinstance(base, dict):
@@ -696,6 +722,8 @@ class Evaluator:
                 recv = self.ev(f.value, env, ctx) if not (isinstance(f.value, ast.Name) and f.value.id not in env) else None
             except Und:
                 recv = None
+            if name in ("to_numpy", "astype", "to_list", "tolist", "copy") and isinstance(recv, (PW, SymArr)):
+                return recv
             if isinstance(recv, ObjV) and self.repo.has_method(recv.cls, name):
                 args, kwargs = self.eval_args(e, env, ctx)
                 return self.call(self.repo.method(recv.cls, name), args, kwargs, recv)
